@@ -36,6 +36,8 @@ pub enum Meth {
 pub struct Cfg {
     pub algo: Algo,
     pub transpose: bool,
+    /// call transpose() a second time (must stay transposed: it configures, it does not toggle)
+    pub twice: bool,
     pub target: Option<K>,
     pub mode: Mode,
     pub meth: Meth,
@@ -46,6 +48,7 @@ impl Cfg {
         Cfg {
             algo,
             transpose: false,
+            twice: false,
             target: None,
             mode,
             meth: Meth::None,
@@ -66,7 +69,7 @@ impl Cfg {
         format!(
             "{:?}{}{}.{:?}/{:?}",
             self.algo,
-            if self.transpose { ".T" } else { "" },
+            if self.transpose && self.twice { ".T.T" } else if self.transpose { ".T" } else { "" },
             match self.target {
                 Some(t) => format!(".t{}", t),
                 None => String::new(),
@@ -596,6 +599,9 @@ macro_rules! impl_directed {
                         if cfg.transpose {
                             s = s.transpose();
                         }
+                        if cfg.transpose && cfg.twice {
+                            s = s.transpose();
+                        }
                         if let Some(ref t) = cfg.target {
                             s = s.target(t);
                         }
@@ -604,6 +610,9 @@ macro_rules! impl_directed {
                     Algo::Dfs => {
                         let mut s = n.dfs();
                         if cfg.transpose {
+                            s = s.transpose();
+                        }
+                        if cfg.transpose && cfg.twice {
                             s = s.transpose();
                         }
                         if let Some(ref t) = cfg.target {
@@ -615,6 +624,9 @@ macro_rules! impl_directed {
                         let mut s = n.pfs();
                         s = if cfg.algo == Algo::PfsMax { s.max() } else { s.min() };
                         if cfg.transpose {
+                            s = s.transpose();
+                        }
+                        if cfg.transpose && cfg.twice {
                             s = s.transpose();
                         }
                         if let Some(ref t) = cfg.target {
@@ -629,6 +641,9 @@ macro_rules! impl_directed {
                             n.postorder()
                         };
                         if cfg.transpose {
+                            s = s.transpose();
+                        }
+                        if cfg.transpose && cfg.twice {
                             s = s.transpose();
                         }
                         with_method!(s, cfg, cb, $m, finish_order_search)
